@@ -53,17 +53,23 @@ type PayloadShape struct {
 }
 
 type TxShape struct {
-	Accounts []int        `json:"accounts,omitempty"` // indices into the account universe; the fee payer is derived from the tx counter
-	Loaded   []int        `json:"loaded,omitempty"`   // address-table loaded accounts (recorded in the metadata only)
-	Vote     bool         `json:"vote,omitempty"`
-	Failed   bool         `json:"failed,omitempty"`
-	NoIndex  bool         `json:"no_index,omitempty"` // position index omitted
-	NoMeta   bool         `json:"no_meta,omitempty"`  // empty metadata
-	TxPad    int          `json:"tx_pad,omitempty"`   // extra instruction data bytes
-	Meta     PayloadShape `json:"meta,omitempty"`
-	Data     PayloadShape `json:"data,omitempty"` // frame layout of the transaction bytes (default: one frame)
-	Sig      *[64]byte    `json:"sig,omitempty"`  // explicit first signature (collision scenarios)
-	Keys     [][32]byte   `json:"keys,omitempty"` // explicit extra static account keys (constructed addresses)
+	Accounts []int `json:"accounts,omitempty"` // indices into the account universe; the fee payer is derived from the tx counter
+	Loaded   []int `json:"loaded,omitempty"`   // address-table loaded accounts (recorded in the metadata only)
+	Vote     bool  `json:"vote,omitempty"`
+	Failed   bool  `json:"failed,omitempty"`
+	// FailKind selects the recorded error of a failed transaction: 0 = InstructionError(0, Custom(7)),
+	// 1 = InstructionError(0, InvalidAccountData) (an instruction error without payload),
+	// 2 = InsufficientFundsForFee (a transaction error without payload)
+	FailKind int `json:"fail_kind,omitempty"`
+	// MetaGarbage: the stored metadata is bytes that are neither protobuf nor bincode status metadata
+	MetaGarbage bool         `json:"meta_garbage,omitempty"`
+	NoIndex     bool         `json:"no_index,omitempty"` // position index omitted
+	NoMeta      bool         `json:"no_meta,omitempty"`  // empty metadata
+	TxPad       int          `json:"tx_pad,omitempty"`   // extra instruction data bytes
+	Meta        PayloadShape `json:"meta,omitempty"`
+	Data        PayloadShape `json:"data,omitempty"` // frame layout of the transaction bytes (default: one frame)
+	Sig         *[64]byte    `json:"sig,omitempty"`  // explicit first signature (collision scenarios)
+	Keys        [][32]byte   `json:"keys,omitempty"` // explicit extra static account keys (constructed addresses)
 }
 
 type BlockShape struct {
@@ -497,6 +503,12 @@ func (g *gen) tx(ts TxShape, slot uint64, pos, blockIdx, counter int) TxTruth {
 		if ts.Failed {
 			// bincode of TransactionError::InstructionError(0, InstructionError::Custom(7))
 			meta.Err = &confirmed_block.TransactionError{Err: []byte{8, 0, 0, 0, 0, 25, 0, 0, 0, 7, 0, 0, 0}}
+			switch ts.FailKind {
+			case 1:
+				meta.Err.Err = []byte{8, 0, 0, 0, 0, 3, 0, 0, 0} // InstructionError(0, InvalidAccountData)
+			case 2:
+				meta.Err.Err = []byte{4, 0, 0, 0} // InsufficientFundsForFee
+			}
 		}
 		for _, l := range ts.Loaded {
 			k := Account(l)
@@ -511,6 +523,11 @@ func (g *gen) tx(ts TxShape, slot uint64, pos, blockIdx, counter int) TxTruth {
 		tt.Fee = fee
 		tt.Logs = logs
 		metaStored = zstdCompress(mb)
+		if ts.MetaGarbage {
+			// a status-metadata blob no parser understands (zstd frame around 20 bytes of 0x99)
+			metaStored = zstdCompress(bytes.Repeat([]byte{0x99}, 20))
+			tt.MetaBytes = bytes.Repeat([]byte{0x99}, 20)
+		}
 		tt.MetaZstd = metaStored
 	}
 	// metadata continuation frames precede the transaction node
